@@ -8,6 +8,11 @@
   loaded, query compiled by `callGoal`, run on the query shifted by 10 as `Driver.C01.vmLine` does)
   and `SLD.solveQuery` (the reference interpreter, engine cut semantics) both return, then they
   return the same answers in the same order, up to renaming of variables, and end the same way.
+
+  Stage 3 (`vm_refines_sld_ctl`, `CtlFrag`): + `call/1`, `once/1`, `\\+`, if-then(-else), disjunction at
+  the top level of bodies.  Stage 4a (`vm_refines_sld_callN`, `CallNFrag`): + `call/N`, 2 ≤ N ≤ 8.
+  Stage 4b (`vm_refines_sld_ctl2`, `Ctl2Frag` = `FragS true`, the fragment the proofs work with):
+  + a disjunction as a goal.  The fragments of the earlier stages are instances (`FragG.toS`).
 -/
 import PrologVerif.Proofs.RefineQuery
 namespace PrologVerif.Refine
@@ -137,7 +142,8 @@ theorem vm_query {fl : Bool} (prog : List Term) (query : Term) (max : Nat) (hfra
 
 /-! ## the theorems -/
 
-/-- the general form: `fl = false` is the fragment of stages 1 and 2, `fl = true` adds `call/1` -/
+/-- the general form: `fl = false` is the fragment of stages 1 and 2, `fl = true` adds the control
+    constructs (`ctlGoal`: stages 3 and 4) -/
 theorem vm_refines_sld_S {fl : Bool} (prog : List Term) (query : Term) (max : Nat)
     (hfrag : FragS fl prog query) (hmax : 0 < max)
     (f1 f2 : Nat) (as1 as2 : List Term) (e1 : VM.End) (e2 : SLD.End)
@@ -180,7 +186,7 @@ theorem vm_refines_sld_call (prog : List Term) (query : Term) (max : Nat)
     (h2 : SLD.solveQuery f2 prog query max = some (as2, e2))
     (hcalls : CallsOK true f1 prog query max) :
     Forall2 (AnsRel (Driver.C01.shiftVars 10 query)) as1 as2 ∧ endAgree e1 e2 :=
-  vm_refines_sld_S prog query max hfrag hmax f1 f2 as1 as2 e1 e2 h1 h2 hcalls
+  vm_refines_sld_S prog query max (hfrag.toS (fun _ => ctlGoal1_sub) (fun _ => ctl1_single)) hmax f1 f2 as1 as2 e1 e2 h1 h2 hcalls
 
 /-- **vm_refines_sld_ctl** (stage 3): program and query in `CtlFrag` (clauses over user predicates
     whose bodies are disjunctions — at the top level — of conjunctions of `!`, Horn goals and the
@@ -190,6 +196,53 @@ theorem vm_refines_sld_call (prog : List Term) (query : Term) (max : Nat)
     if-then(-else) is local. -/
 theorem vm_refines_sld_ctl (prog : List Term) (query : Term) (max : Nat)
     (hfrag : CtlFrag prog query) (hmax : 0 < max)
+    (f1 f2 : Nat) (as1 as2 : List Term) (e1 : VM.End) (e2 : SLD.End)
+    (h1 : VM.runQuery f1 prog (Driver.C01.shiftVars 10 query) max = some (as1, e1))
+    (h2 : SLD.solveQuery f2 prog query max = some (as2, e2))
+    (hcalls : CallsOK true f1 prog query max) :
+    Forall2 (AnsRel (Driver.C01.shiftVars 10 query)) as1 as2 ∧ endAgree e1 e2 :=
+  vm_refines_sld_S prog query max (hfrag.toS (fun _ => ctlGoal1_sub) (fun _ => ctl1_single)) hmax f1 f2 as1 as2 e1 e2 h1 h2 hcalls
+
+theorem callN_single' {t : Term} (h : (ctlGoal1 t || callNGoal t) = true) : (SLD.disjuncts t).length = 1 := by
+  rcases Bool.or_eq_true _ _ ▸ h with h | h
+  · exact ctl1_single h
+  · exact callN_single h
+
+theorem callN_sub {t : Term} (h : (ctlGoal1 t || callNGoal t) = true) : ctlGoal t = true := by
+  rcases Bool.or_eq_true _ _ ▸ h with h | h
+  · exact ctlGoal1_sub h
+  · exact callNGoal_sub h
+
+/-- **vm_refines_sld_callN** (stage 4a, `call/N`): program and query in `CallNFrag` = `CtlFrag` +
+    `call(G, A1, …, Ak)`, 1 ≤ k ≤ 7, as a goal of clause bodies, of the query and of called goals.
+    The VM's `callN` dereferences the closure `G` and appends the arguments to it; the goal so built
+    is called as by `call/1`.  The reference: `addArgs`, then `callBody`.  Side condition `CallsOK`:
+    in addition to what it says about `call/1`, at every `call/N` the closure dereferences (inner
+    fuel) to a variable (instantiation error on both sides), to a number or string (type error on
+    both sides) or to a callable term such that the goal built is, instantiated (inner fuel), a body
+    of the fragment (`callNOK`). -/
+theorem vm_refines_sld_callN (prog : List Term) (query : Term) (max : Nat)
+    (hfrag : CallNFrag prog query) (hmax : 0 < max)
+    (f1 f2 : Nat) (as1 as2 : List Term) (e1 : VM.End) (e2 : SLD.End)
+    (h1 : VM.runQuery f1 prog (Driver.C01.shiftVars 10 query) max = some (as1, e1))
+    (h2 : SLD.solveQuery f2 prog query max = some (as2, e2))
+    (hcalls : CallsOK true f1 prog query max) :
+    Forall2 (AnsRel (Driver.C01.shiftVars 10 query)) as1 as2 ∧ endAgree e1 e2 :=
+  vm_refines_sld_S prog query max (hfrag.toS (fun _ => callN_sub) (fun _ => callN_single')) hmax f1 f2 as1 as2 e1 e2 h1 h2 hcalls
+
+/-- **vm_refines_sld_ctl2** (stage 4b, a disjunction as a goal): program and query in `Ctl2Frag` =
+    `CallNFrag` + `(A ; B)` — not an if-then-else, `A` callable and not `_ -> _` — as a conjunct of a
+    conjunction (clause bodies, query, called goals).  The VM calls `;`/2: the heads of the two
+    if-then-else clauses of bootstrap.pl clash with the goal (`clash_ite`: a Robinson clash, whatever
+    the variables of `A` are bound to), the third clause `P ; Q :- call((P ; Q)).` is a WRAPPER: a
+    frame of the VM that the reference, which runs the body of `call((A ; B))` in place of the goal,
+    has no level for (`PSpec.wrap`, `tw_last`, `direct_tail`); the cut inside a disjunct is local to
+    the disjunction on both sides.  Side condition `CallsOK`: it now also covers the `call/1` inside
+    that clause (the instantiated `(A ; B)` has bodies of the fragment as top-level disjuncts).
+    `','/2` as a goal cannot arise in the fragment (conjunctions are flattened by the compiler and by
+    the reference alike); `call(',', A, B)` is covered by call/N. -/
+theorem vm_refines_sld_ctl2 (prog : List Term) (query : Term) (max : Nat)
+    (hfrag : Ctl2Frag prog query) (hmax : 0 < max)
     (f1 f2 : Nat) (as1 as2 : List Term) (e1 : VM.End) (e2 : SLD.End)
     (h1 : VM.runQuery f1 prog (Driver.C01.shiftVars 10 query) max = some (as1, e1))
     (h2 : SLD.solveQuery f2 prog query max = some (as2, e2))
@@ -266,16 +319,18 @@ theorem vm_refines_sld_horn_canon (prog : List Term) (query : Term) (max : Nat)
     as1.map Term.canon = as2.map Term.canon ∧ endAgree e1 e2 :=
   vm_refines_sld_cut_canon prog query max (CutFrag.of_horn hfrag) hmax f1 f2 as1 as2 e1 e2 h1 h2 hinner
 
-/-- **what stage 3 leaves open** (NOT proved), as a statement: the refinement for the fragment with
-    (a) a disjunction `(A ; B)` that is not an if-then-else as a GOAL inside a conjunction (the VM
-    runs the three clauses of `;`/2 — the two if-then-else clauses fail at the head — and
-    `P ; Q :- call((P ; Q))`: a frame without level in the reference, as for `true`; the call of the
-    disjunction itself is covered: `call/1` of a goal with top-level disjuncts), `','/2` as a predicate,
-    and (b) `call/N`, 2 ≤ N ≤ 8 (for N ≥ 9 the VM MODEL and the reference DISAGREE: the model's
-    `builtin "call"` accepts any arity and calls the goal, the reference — like the Go engine, which
-    only defines call/1 … call/8 — raises `existence_error(procedure, call/9)`; witness:
-    `p(1,2,3,4,5,6,7,8).  ?- call(p,1,2,3,4,5,6,7,8).`).  `Frag` is any decidable fragment
-    predicate that contains these goals in addition to those of `CtlFrag`. -/
+/-- **what stages 3 and 4 leave open** (NOT proved), as a statement: the refinement for a fragment
+    `Frag` that contains, in addition to the goals of `Ctl2Frag` (proved: `vm_refines_sld_ctl2`, which
+    closed (a) a disjunction `(A ; B)` that is not an if-then-else as a GOAL inside a conjunction and
+    (b) `call/N`, 2 ≤ N ≤ 8, of the previous version of this statement):
+    * a disjunction goal `(V ; B)` whose first alternative is a VARIABLE at compile time — there the
+      head `(If -> Then ; _)` of the first clause of `;`/2 may unify with the goal at run time (binding
+      `V` if it is unbound: the VM then runs `If, !, Then` where the reference runs `call(V)`);
+    * `call/N`, N ≥ 9: the VM MODEL and the reference DISAGREE — the model's `builtin "call"` accepts
+      any arity and calls the goal, the reference — like the Go engine, which only defines call/1 …
+      call/8 — raises `existence_error(procedure, call/9)`; witness:
+      `p(1,2,3,4,5,6,7,8).  ?- call(p,1,2,3,4,5,6,7,8).`;
+    * catch/throw, findall/3 and the other built-ins. -/
 def VmRefinesSldCtlFullStatement (Frag : List Term → Term → Prop) : Prop :=
   ∀ (prog : List Term) (query : Term) (max : Nat), Frag prog query → 0 < max →
     ∀ (f1 f2 : Nat) (as1 as2 : List Term) (e1 : VM.End) (e2 : SLD.End),
